@@ -16,6 +16,7 @@ import Driver.Pabulib
 import Driver.Csv
 import Driver.MESLazy
 import Driver.MESAnalytics
+import Driver.WelfareILP
 open Pabu Pabu.Driver
 
 def dispatch (line : String) : String :=
@@ -31,6 +32,7 @@ def dispatch (line : String) : String :=
     | "greedy" => cmdGreedy a
     | "phragmen" => cmdPhragmen a
     | "maxw" => cmdMaxw a
+    | "welfareilp" => cmdWelfareILP a
     | "exhaust" => cmdExhaust a
     | "compose" => cmdCompose a
     | "stats" => cmdStats a
